@@ -214,6 +214,48 @@ def o_resume_with_publish(ad, a, b, c):
     return ops
 
 
+TRIGGERS = ["publish_ok", "onPublish", "subscribe_ok", "connect_ok", "onMqttConnectionMade", "publish_ok", "onPublish", "publish_ok"]
+ACTIONS = ["disconnect", "publish", "disconnect", "subscribe", "publish", "unsubscribe", "disconnect", "publish"]
+
+
+def o_arm(ad, a, b, c):
+    """the application reacts from inside a callback (chained calls, the usual Twisted style)"""
+    return [("arm", ad, TRIGGERS[a % 8], ACTIONS[b % 8], c % 3)]
+
+
+def o_arm_disconnect(ad, a, b, c):
+    return [("arm", ad, TRIGGERS[a % 8], "disconnect", 0)]
+
+
+def o_segment(ad, a, b, c):
+    """several broker packets in one TCP segment"""
+    n = 2 + a % 3
+    ops = [("coalesce", ad, n)]
+    kinds = ["PUBACK", "PUBREC", "PUBCOMP", "SUBACK", "UNSUBACK", "PUBLISH", "PUBLISH", "PUBREL", "PINGRESP"]
+    for j in range(n):
+        k = kinds[(b + 5 * j + (c >> (2 * j))) % 9]
+        if k == "PUBLISH":
+            ops.append(("rx", ad, "PUBLISH", (c >> j) % 3, (b >> j) & 0x0f, j))
+        elif k == "PINGRESP":
+            ops.append(("rx", ad, "PINGRESP"))
+        elif k == "PUBREL":
+            ops.append(("rx", ad, "PUBREL", 0, 0, 0))
+        else:
+            ops.append(("rx", ad, k, [0, 0, 1, 2][(c + j) % 4], b, 0))
+    return ops
+
+
+def o_quit_inside_segment(ad, a, b, c):
+    """the application calls disconnect() from a callback while the same TCP segment still holds more
+    packets (they are processed after the DISCONNECT was written)"""
+    trig = ["onPublish", "publish_ok", "subscribe_ok", "onPublish"][a % 4]
+    first = {"onPublish": ("rx", ad, "PUBLISH", (a >> 2) % 3, b & 0x0f, 0), "publish_ok": ("rx", ad, "PUBACK", 0, 0, 0),
+             "subscribe_ok": ("rx", ad, "SUBACK", 0, 0, 0)}[trig]
+    rest = [("rx", ad, "PUBLISH", 1 + (c & 1), (c >> 1) & 0x0f, 1), ("rx", ad, "PUBREL", 0, 0, 0), ("rx", ad, "PUBREC", 0, 0, 0),
+            ("rx", ad, "PINGRESP")][(c >> 5) % 4]
+    return [("arm", ad, trig, "disconnect", 0), ("coalesce", ad, 2), first, rest]
+
+
 class Table(object):
     """cumulative weight table over 256 slots"""
 
